@@ -734,6 +734,17 @@ fn selection_case(s: &mut Session, rng: &mut Rng) {
         _ => "none".into(),
     };
     s.oracle("selection:has_map-consistent", cm.has_map() == (chosen != "none") && cm.has_variant_map() == (vchosen != "none"), || format!("{recs:?}"), || String::new());
+    // documented priority, independently of the model: symbol > full repertoire > BMP, supported formats only
+    let kind_of = |r: &(u16, u16, u8)| -> u8 {
+        if r.2 > 1 { return 0; }
+        match (r.0, r.1) { (0, 5) => 0, (3, 0) => 3, (3, 10) | (0, 4) => 2, (2, _) | (0, _) | (3, 1) => 1, _ => 0 }
+    };
+    let best = recs.iter().map(kind_of).max().unwrap_or(0);
+    let sel_ok = match chosen.parse::<usize>() {
+        Err(_) => best == 0,
+        Ok(i) => i < recs.len() && kind_of(&recs[i]) == best && best > 0 && cm.is_symbol() == (best == 3),
+    };
+    s.oracle("selection:best-kind", sel_ok, || format!("{recs:?}"), || format!("chosen {chosen} best kind {best} symbol {}", cm.is_symbol()));
     let kinds = ["f4", "f12", "f14", "x"];
     let rt = if recs.is_empty() { "-".to_string() } else { recs.iter().map(|(p, e, k)| format!("{p},{e},{}", kinds[*k as usize])).collect::<Vec<_>>().join(" ") };
     s.case("sk.sel", format!("sk.sel {rt}"), format!("{chosen} {} {vchosen}", cm.is_symbol()));
